@@ -1176,6 +1176,24 @@ def knows(f, node, guard, holds, params=None):
     return expected_facts(guard, holds, params if params is not None else f.params, f.module) <= facts(f, node)
 
 
+def fails_on_every_path(f, stmt, guard, params=None):
+    """Like knows_fails, but path by path: every path that reaches the statement knows the guard (or, for a conjunction, one of
+    its conjuncts) to be false - what is known after a join differs per path (`if size: if too long: raise` ... `return value`)."""
+    from ..pyfront import paths_to
+    paths = paths_to(f, stmt)
+    if paths is None:
+        return False
+    prm = list(params if params is not None else f.params)
+    e = ast.parse(guard.strip(), mode='eval').body
+    parts = [ast.unparse(v) for v in e.values] if isinstance(e, ast.BoolOp) and isinstance(e.op, ast.And) else []
+    alternatives = [expected_facts(guard, False, prm, f.module)] + [expected_facts(p_, False, prm, f.module) for p_ in parts]
+    for facts_ in paths:
+        got = set((sem_text(f, t), pol) for t, pol, how in facts_)
+        if not any(a <= got for a in alternatives):
+            return False
+    return True
+
+
 def knows_fails(f, node, guard, params=None):
     """Is `guard` known to be false whenever `node` is reached? A conjunction is false as soon as one conjunct is known to be
     false (`if not size: return value` has left the test `size and len(value) > size` behind just as well as failing it has)."""
